@@ -138,6 +138,51 @@ pub fn judge_encoding(m: &MMsg, bytes: &[u8]) -> Judge {
     Ok(())
 }
 
+pub struct OrderInfo {
+    pub names: Vec<String>,
+    pub pu: bool,
+    pub ju: bool,
+    pub ji: bool,
+}
+
+/// C09's oracle on one encoding, through the reference decoder
+pub fn c09_order(bytes: &[u8]) -> Result<OrderInfo, Fail> {
+    let d = ref_decode(bytes).map_err(|e| Fail::new("C09/undecodable", format!("reference decoder rejects the request: {} at {}", e.reason, e.offset)))?;
+    let fail = |sig: &str, m: String| Err(Fail::new(format!("C09/{sig}"), m));
+    let first = match d.msg.groups.first() {
+        Some(g) => g,
+        None => return fail("no-groups", "no attribute group in the encoded message".to_string()),
+    };
+    if first.tag != 0x01 {
+        return fail("first-group", format!("first group delimiter is {:#04x}, not operation-attributes", first.tag));
+    }
+    let names: Vec<String> = first.attrs.iter().map(|a| String::from_utf8_lossy(&a.name).to_string()).collect();
+    if names.first().map(|s| s.as_str()) != Some("attributes-charset") {
+        return fail("charset-not-first", format!("operation attributes start with {:?}", names.iter().take(4).collect::<Vec<_>>()));
+    }
+    if names.get(1).map(|s| s.as_str()) != Some("attributes-natural-language") {
+        return fail("language-not-second", format!("operation attributes start with {:?}", names.iter().take(4).collect::<Vec<_>>()));
+    }
+    // a target attribute counts as present when it is in ANY operation-attributes group on the wire
+    // (additions can only put it into the leading one; finding it elsewhere means it was misplaced)
+    let all_op: Vec<String> = d.msg.groups.iter().filter(|g| g.tag == 0x01).flat_map(|g| g.attrs.iter().map(|a| String::from_utf8_lossy(&a.name).to_string())).collect();
+    let has = |n: &str| all_op.iter().any(|x| x == n);
+    let (pu, ju, ji) = (has("printer-uri"), has("job-uri"), has("job-id"));
+    if d.msg.groups.iter().filter(|g| g.tag == 0x01).count() > 1 {
+        return fail("operation-group-split", format!("the message was built by additions only, but {} operation-attributes groups are on the wire", d.msg.groups.iter().filter(|g| g.tag == 0x01).count()));
+    }
+    if pu != ju {
+        let target = if pu { "printer-uri" } else { "job-uri" };
+        if names.get(2).map(|s| s.as_str()) != Some(target) {
+            return fail(&format!("{target}-not-third"), format!("{target} is the only target URI but the operation attributes are ordered {:?}", names.iter().take(6).collect::<Vec<_>>()));
+        }
+        if pu && ji && names.get(3).map(|s| s.as_str()) != Some("job-id") {
+            return fail("job-id-not-fourth", format!("printer-uri + job-id target but the operation attributes are ordered {:?}", names.iter().take(6).collect::<Vec<_>>()));
+        }
+    }
+    Ok(OrderInfo { names, pu, ju, ji })
+}
+
 
 /// C02: all three front ends on one input; Ok results are exercised. Returns the blocking outcome class.
 pub fn total_core(bytes: &[u8]) -> Result<String, Fail> {
